@@ -23,6 +23,8 @@ ASSUMPTIONS = [
     "expected path text = the raw path template with mapped values substituted (vp.confmodel.PathModel.render), normalised by pathlib",
 ]
 
+ODD_CHARS = list("\\ '()[]{}$^|+~!@#%&=;") + ["\\\\", "\\x"]
+
 _paths_seen = {}   # (config, path) -> uri   (run-wide, per worker)
 
 
@@ -55,6 +57,12 @@ def tricky_name(draw):
     name = sep.join(parts)
     if draw(st.integers(0, 9)) == 0:
         name = draw(st.sampled_from(["_", "-", "x_", "_x", "x.", "x..y", "x__y", "a b"]))
+    if draw(st.integers(0, 7)) == 0:
+        # characters that are ordinary in a POSIX file name but special somewhere else (other platforms' separator,
+        # regular expressions, shells, urls)
+        c = draw(st.sampled_from(ODD_CHARS))
+        pos = draw(st.integers(0, len(name)))
+        name = name[:pos] + c + name[pos:]
     if name in ("", ".", ".."):
         name = "x"
     return name
@@ -107,7 +115,10 @@ def evaluate(case) -> Outcome:
             continue
         free_vals = [v for k, v in f.items() if m.specs[(t, k)].free]
         toks = set(tokens(model))
-        nt = any(any(c in v for c in "_.-") or v in toks for v in free_vals) or "cache" in t
+        odd = any(c in v for v in free_vals for c in "\\ '()[]{}$^|+~!@#%&=;")
+        if odd and idx == 0:
+            out.label("odd-character-in-name")
+        nt = odd or any(any(c in v for c in "_.-") or v in toks for v in free_vals) or "cache" in t
         if idx == 0:
             out.nontrivial = nt
             out.key = uri
